@@ -164,6 +164,7 @@ type ParamDecl struct {
 	Explode  string `json:"explode,omitempty"` // "" (unset) | true | false   (arrays in query)
 	Enum     []any  `json:"enum,omitempty"`
 	Required bool   `json:"required,omitempty"`
+	Content  bool   `json:"content,omitempty"` // declared through `content: application/json` instead of `schema` (value is JSON text)
 }
 
 // SDoc selects one member of the document family.
@@ -198,11 +199,11 @@ func secReqs(shape string) []any {
 	case "or":
 		return []any{map[string]any{"a": []any{}}, map[string]any{"b": []any{}}}
 	case "or3":
-		return []any{map[string]any{"a": []any{}}, map[string]any{"b": []any{"read"}}, map[string]any{"c": []any{}}}
+		return []any{map[string]any{"a": []any{}}, map[string]any{"b": []any{"read"}}, map[string]any{"x-c": []any{}}}
 	case "and":
 		return []any{map[string]any{"a": []any{}, "b": []any{"read", "write"}}}
 	case "and_or":
-		return []any{map[string]any{"a": []any{}, "b": []any{}}, map[string]any{"c": []any{}}}
+		return []any{map[string]any{"a": []any{}, "b": []any{}}, map[string]any{"x-c": []any{}}}
 	case "empty_req":
 		return []any{map[string]any{}}
 	case "or_empty":
@@ -218,7 +219,7 @@ func secReqs(shape string) []any {
 	case "undecl_or": // an alternative naming a scheme the document does not declare, then a declared one
 		return []any{map[string]any{"zz": []any{}}, map[string]any{"a": []any{}}}
 	case "undecl_and":
-		return []any{map[string]any{"a": []any{}, "zz": []any{}}, map[string]any{"c": []any{}}}
+		return []any{map[string]any{"a": []any{}, "zz": []any{}}, map[string]any{"x-c": []any{}}}
 	case "undecl_only":
 		return []any{map[string]any{"zz": []any{}}}
 	}
@@ -245,7 +246,7 @@ func SecurityModel(d SDoc, accepted func(scheme string, scopes []string) bool) b
 	if len(reqs) == 0 {
 		return true
 	}
-	declared := map[string]bool{"a": true, "b": true, "c": true}
+	declared := map[string]bool{"a": true, "b": true, "x-c": true}
 	for _, r := range reqs {
 		ok := true
 		for name, sc := range r.(map[string]any) {
@@ -383,6 +384,12 @@ func (d SDoc) JSON() []byte {
 			}
 		}
 		pm := map[string]any{"name": p.Name, "in": p.In, "schema": sch}
+		if p.Content {
+			if p.Type == "object" {
+				sch["properties"] = map[string]any{"state": map[string]any{"type": "string"}}
+			}
+			pm = map[string]any{"name": p.Name, "in": p.In, "content": map[string]any{"application/json": map[string]any{"schema": sch}}}
+		}
 		if p.Required {
 			pm["required"] = true
 		}
@@ -457,9 +464,9 @@ func (d SDoc) JSON() []byte {
 		"info":    map[string]any{"title": "sim-stream", "version": "1"},
 		"paths":   map[string]any{"/thing": pathItem(d.OpKey(), op, responses, pathLevel)},
 		"components": map[string]any{"securitySchemes": map[string]any{
-			"a": map[string]any{"type": "apiKey", "in": "header", "name": "X-A"},
-			"b": map[string]any{"type": "oauth2", "flows": map[string]any{"implicit": map[string]any{"authorizationUrl": "https://sim.test/auth", "scopes": map[string]any{"read": "r", "write": "w"}}}},
-			"c": map[string]any{"type": "http", "scheme": "basic"},
+			"a":   map[string]any{"type": "apiKey", "in": "header", "name": "X-A"},
+			"b":   map[string]any{"type": "oauth2", "flows": map[string]any{"implicit": map[string]any{"authorizationUrl": "https://sim.test/auth", "scopes": map[string]any{"read": "r", "write": "w"}}}},
+			"x-c": map[string]any{"type": "http", "scheme": "basic"}, // (a legal scheme name that looks like an extension key)
 		}},
 	}
 	if d.SecDoc != "" {
